@@ -3,6 +3,7 @@ package main
 import (
 	"fmt"
 	"go/token"
+	"go/types"
 	"sort"
 	"strings"
 
@@ -42,11 +43,13 @@ func runC08(p *Prog, r *Report) {
 	r.Rule("D5-balanced", "gitignore push/pop balanced over every directory")
 	c08Sorted(p, r)
 	c08Comparators(p, r)
+	c08NoPointerIdentity(p, r)
 	e := resolveEngine(p, r, "D3-per-root")
 	if !e.ok() {
 		return
 	}
 	c08PerRoot(p, r, e)
+	checkFileAPI(p, r, e, "D3-per-root")
 	onlyLoopEndSkips(p, r, "D3-per-root", "filesystem.Run:every-root-walked", e.Run, func(in ssa.Instruction) bool {
 		c := callOf(in)
 		return c != nil && c.StaticCallee() == e.runOnScanRoot
@@ -359,4 +362,36 @@ func c08Balanced(p *Prog, r *Report, e *engine, rule string) {
 	_, emptyF := guardEdges(ph.fn, condCmp(lenOf, isConstInt(0), token.GTR))
 	cut := edgesOf(append(append(append([]Edge{}, ugF...), dF...), emptyF...))
 	ph.noPath(rule, "pop-for-every-directory", entryPoint(ph.fn), isReturn, instrIs(pop), cut, "every directory with a non-empty stack pops", "a directory can finish without popping its pattern set: patterns of a sibling subtree leak into the rest of the walk")
+}
+
+// c08NoPointerIdentity: the result comparators order by content. A comparison of two pointer values
+// with == / != (other than against nil) compares object identity: two findings / packages that are
+// equal in content but separately allocated are "different" there and the following content keys
+// are never reached, so ties stay in arrival order.
+func c08NoPointerIdentity(p *Prog, r *Report) {
+	n := 0
+	for _, name := range []string{"CmpPackages", "cmpStatus", "cmpFindings", "cmpString"} {
+		fn := p.Func(".", name)
+		if fn == nil {
+			continue
+		}
+		n++
+		bad := ""
+		for _, f := range withAnon(fn) {
+			forEachInstr(f, func(_ *ssa.BasicBlock, _ int, in ssa.Instruction) {
+				bo, ok := in.(*ssa.BinOp)
+				if !ok || (bo.Op != token.EQL && bo.Op != token.NEQ) {
+					return
+				}
+				if isNilConst(bo.X) || isNilConst(bo.Y) {
+					return
+				}
+				if _, isPtr := bo.X.Type().Underlying().(*types.Pointer); isPtr {
+					bad = renderValueDeep(bo.X) + " " + bo.Op.String() + " " + renderValueDeep(bo.Y)
+				}
+			})
+		}
+		r.Check(bad == "", "D2-mirror", name+":no-pointer-identity", p.Pos(fn.Pos()), "orders by content only", "the comparator compares two pointers for identity ("+bad+"): separately allocated but equal values compare as different, the content keys behind that test are never consulted and ties are left in arrival (walk / map) order")
+	}
+	r.Instances("D2-mirror", "result comparators checked for pointer identity", n, 3)
 }
